@@ -2,7 +2,7 @@ package verifrt
 
 import "fmt"
 
-func sprint(v any) string { return fmt.Sprint(v) }
+func sprint(v ...any) string { return fmt.Sprint(v...) }
 
 // Options bound the schedule search.
 type Options struct {
@@ -18,17 +18,18 @@ type Options struct {
 
 // Stats is what a search covered.
 type Stats struct {
-	Executions  int64  `json:"executions"`
-	Steps       int64  `json:"steps"`     // choice points passed, all executions
-	NewSteps    int64  `json:"new_steps"` // choice points beyond the replayed prefix = distinct schedule-tree nodes
-	MaxSteps    int    `json:"max_steps"` // longest execution
-	MaxPreempt  int    `json:"max_preemptions"`
-	Deadlocks   int64  `json:"deadlocks"`
-	Aborted     int64  `json:"aborted"`
-	Divergences int64  `json:"divergences"`
-	Stopped     bool   `json:"stopped"`
-	Stuck       int64  `json:"stuck"` // executions in which a thread waited on something the scheduler does not model
-	StuckDump   string `json:"stuck_dump,omitempty"`
+	Executions      int64  `json:"executions"`
+	Steps           int64  `json:"steps"`     // choice points passed, all executions
+	NewSteps        int64  `json:"new_steps"` // choice points beyond the replayed prefix = distinct schedule-tree nodes
+	MaxSteps        int    `json:"max_steps"` // longest execution
+	MaxPreempt      int    `json:"max_preemptions"`
+	Deadlocks       int64  `json:"deadlocks"`
+	Aborted         int64  `json:"aborted"`
+	Divergences     int64  `json:"divergences"`
+	FirstDivergence string `json:"first_divergence,omitempty"`
+	Stopped         bool   `json:"stopped"`
+	Stuck           int64  `json:"stuck"` // executions in which a thread waited on something the scheduler does not model
+	StuckDump       string `json:"stuck_dump,omitempty"`
 }
 
 // Explore runs every schedule within the bounds. mk is called once per
@@ -70,13 +71,21 @@ func Explore(o Options, mk func() (main func(), done func(x *Exec))) Stats {
 		}
 		for _, p := range x.Panics {
 			if len(p) > 17 && p[:17] == "REPLAY-DIVERGENCE" {
+				// the recorded prefix could not be replayed: the execution depends on something the harness
+				// does not own (map order, time, randomness). That says nothing about the property: the
+				// execution is not judged, its subtree is not explored, the search is reported incomplete.
 				st.Divergences++
-				done(x)
+				if st.FirstDivergence == "" {
+					st.FirstDivergence = p
+				}
 				return
 			}
 		}
 		if len(x.Steps) < len(prefix) {
 			st.Divergences++
+			if st.FirstDivergence == "" {
+				st.FirstDivergence = sprint("execution ended after ", len(x.Steps), " choice points, the recorded prefix has ", len(prefix))
+			}
 			return
 		}
 		pre, dat, fre := 0, 0, 0
